@@ -545,7 +545,9 @@ def check_text(case, st=None, tmp=None):
                 f.write(big_graph_file(kind, k))
         argv = _tokens(case['argv'], tmp)
         fl = tuple(case.get('flags') or ('-q',))
-        ka, A = run_tool_text('cnfgen', argv, fl)
+        as_opb = case.get('cnf_as') == 'opb'
+        # cnf_as = 'opb': what cnfgen prints when asked for the OPB format
+        ka, A = run_tool_text('cnfgen', argv, fl + (('-of', 'opb') if as_opb else ()))
         kb, B = run_tool_text('pbgen', argv, fl)
     finally:
         if own:
@@ -553,10 +555,27 @@ def check_text(case, st=None, tmp=None):
     if ka == 'exc' or kb == 'exc':
         bad('exception', 'cnfgen: %r, pbgen: %r' % (A if ka == 'exc' else 'ok', B if kb == 'exc' else 'ok'))
         return out
-    P = dref.parse(A)
-    if not P.ok:
-        bad('cnfgen-text-unreadable', 'strict DIMACS reader: %r' % (P.issues[:3],))
-        return out
+    if as_opb:
+        try:
+            NA, MA, consA = rd.read_opb(A)
+        except rd.FormatError as e:
+            bad('cnfgen-opb-text-unreadable', 'strict OPB reader: %s' % (e,))
+            return out
+        if MA != len(consA):
+            bad('cnfgen-header-count', 'OPB header of cnfgen announces %d constraints, %d are printed'
+                % (MA, len(consA)))
+
+        class _P:            # the same fields as the DIMACS parse, rows kept as constraints
+            ok = True
+            n = NA
+            clauses = []
+        P = _P()
+    else:
+        consA = None
+        P = dref.parse(A)
+        if not P.ok:
+            bad('cnfgen-text-unreadable', 'strict DIMACS reader: %r' % (P.issues[:3],))
+            return out
     try:
         N, M, cons = rd.read_opb(B)
     except rd.FormatError as e:
@@ -566,7 +585,7 @@ def check_text(case, st=None, tmp=None):
     if '--varnames' in (case.get('flags') or ()):
         # the names both tools print (comment lines 'c varname i NAME' / '* varname xi NAME')
         na = [ln.split(None, 3)[3] if len(ln.split(None, 3)) > 3 else '' for ln in A.splitlines()
-              if ln.startswith('c varname ')]
+              if ln.startswith('* varname ' if as_opb else 'c varname ')]
         nb_ = [ln.split(None, 3)[3] if len(ln.split(None, 3)) > 3 else '' for ln in B.splitlines()
                if ln.startswith('* varname ')]
         st['names'] = len(na)
@@ -595,7 +614,7 @@ def check_text(case, st=None, tmp=None):
                 parent[rb] = ra
     for c in P.clauses:
         union(abs(l) for l in c)
-    for terms, rel, deg in cons:
+    for terms, rel, deg in cons + (consA or []):
         union(abs(l) for (_, l) in terms)
     comp = {}
     for v in range(1, N + 1):
@@ -613,6 +632,13 @@ def check_text(case, st=None, tmp=None):
                 empty_pb_false += 1
         else:
             pb_of.setdefault(find(abs(terms[0][1])), []).append((terms, rel, deg))
+    pbA_of = {}
+    for terms, rel, deg in (consA or []):
+        if not terms:
+            if not ((0 >= deg) if rel == '>=' else (0 == deg)):
+                empty_cnf += 1
+        else:
+            pbA_of.setdefault(find(abs(terms[0][1])), []).append((terms, rel, deg))
     if bool(empty_cnf) != bool(empty_pb_false):
         bad('model-set', 'constant-false rows: cnfgen %d, pbgen %d' % (empty_cnf, empty_pb_false))
     ncomp = 0
@@ -624,6 +650,8 @@ def check_text(case, st=None, tmp=None):
         k = len(vs)
         loc = lambda l: idx[abs(l)] if l > 0 else -idx[abs(l)]
         a = tt.cnf_models(k, [[loc(l) for l in c] for c in cnf_of.get(root, [])])
+        for terms, rel, deg in pbA_of.get(root, []):
+            a &= tt.pb_models(k, [(co, loc(l)) for (co, l) in terms], '>=' if rel == '>=' else '==', deg)
         b = tt.columns(k)[0]
         for terms, rel, deg in pb_of.get(root, []):
             b &= tt.pb_models(k, [(co, loc(l)) for (co, l) in terms], '>=' if rel == '>=' else '==', deg)
@@ -658,6 +686,17 @@ def text_cases(tier):
         for cmd, argv in (('php', ['php', 3, 2]), ('kcolor', ['kcolor', 2, 'complete', 3]),
                           ('count', ['count', 4, 2]), ('tseitin', ['tseitin', 'first', 'complete', 4])):
             cs.append({'lvl': 'text', 'cmd': cmd, 'argv': argv, 'bigfiles': {}, 'flags': fl})
+    # what cnfgen prints when asked for OPB against what pbgen prints, also for
+    # instances with clauses / constraints that have no literals at all
+    for cmd, argv in (('php', ['php', 3, 2]), ('php', ['php', 2, 0]), ('php', ['php', 0, 2]),
+                      ('count', ['count', 4, 2]), ('count', ['count', 3, 5]), ('count', ['count', 2, 3]),
+                      ('matching', ['matching', 'empty', 3]), ('matching', ['matching', 'complete', 4]),
+                      ('tiling', ['tiling', 'empty', 2]), ('tseitin', ['tseitin', 'first', 'empty', 2]),
+                      ('tseitin', ['tseitin', 'first', 'complete', 4]), ('and', ['and', 0, 0]),
+                      ('or', ['or', 0, 0]), ('kcolor', ['kcolor', 1, 'complete', 2]),
+                      ('subsetcard', ['subsetcard', 'empty', 2, 2]), ('parity', ['parity', 3])):
+        for fl in (['-q'], ['--varnames']):
+            cs.append({'lvl': 'text', 'cmd': cmd, 'argv': argv, 'bigfiles': {}, 'flags': fl, 'cnf_as': 'opb'})
     if tier == 'thorough':
         add('and', ['and', 4097, 4097])
         add('kcolor', ['kcolor', 4, 'kthlist', PLACE + '/tri.kthlist'], {'tri.kthlist': ('triangles', 1400)})
